@@ -530,6 +530,7 @@ def cname(n):
 
 PREFIX = 'T'
 DIVREM_NARROW = False   # --divrem-narrow (opt-in per harness family via LL2C_FLAGS in spec.py)
+PTRCMP_OFFSET = False   # --ptrcmp-offset (opt-in): ordered pointer comparisons and ptrtoint use base + SIGNED offset (a pointer formed before the start of a block orders below it and differences come out negative, as on the real machine)
 def lname(n): return 'v_' + cname(n)
 def gsym(n):
     """C symbol of global n: shared name for external linkage, prefixed for TU-local"""
@@ -789,6 +790,7 @@ def emit_func(f):
                     else:
                         c = {'ult':'<','ule':'<=','ugt':'>','uge':'>=','slt':'<','sle':'<=','sgt':'>','sge':'>='}[I.pred]
                         e = '(u64)%s %s (u64)%s' % (a, c, bb)
+                        if PTRCMP_OFFSET: e = 'LL_PTRCMP(%s, %s, %s)' % (a, c, bb)
                 else:
                     if I.pred in ('eq','ne'): e = '%s %s %s' % (a, '==' if I.pred == 'eq' else '!=', bb)
                     elif I.pred[0] == 'u':
@@ -827,7 +829,8 @@ def emit_func(f):
             elif op == 'sitofp':
                 out.append('  %s = (%s)%s;' % (d, cty(I.ty), sext_expr(I.fty, V(I.fty, I.a))))
             elif op == 'ptrtoint':
-                out.append('  %s = (%s)(u64)%s;' % (d, cty(I.ty), V(I.fty, I.a)))
+                if PTRCMP_OFFSET: out.append('  %s = (%s)LL_FLAT(%s);' % (d, cty(I.ty), V(I.fty, I.a)))
+                else: out.append('  %s = (%s)(u64)%s;' % (d, cty(I.ty), V(I.fty, I.a)))
             elif op == 'inttoptr':
                 out.append('  %s = (ptr_t)(u64)%s;' % (d, V(I.fty, I.a)))
             elif op == 'bitcast':
@@ -1059,14 +1062,16 @@ def emit_global(name, t, init, const, out, dyn):
 PRELUDE = '#include "ll_prelude.h"\n'
 
 def main():
-    global PREFIX, DIVREM_NARROW
+    global PREFIX, DIVREM_NARROW, PTRCMP_OFFSET
     import argparse
     ap = argparse.ArgumentParser()
     ap.add_argument('input'); ap.add_argument('--prefix', default='T'); ap.add_argument('-o', dest='out', default=None)
     ap.add_argument('--divrem-narrow', action='store_true')
+    ap.add_argument('--ptrcmp-offset', action='store_true')
     a = ap.parse_args()
     PREFIX = a.prefix
     DIVREM_NARROW = a.divrem_narrow
+    PTRCMP_OFFSET = a.ptrcmp_offset
     text = open(a.input).read()
     parse_module(text)
     bodies = []; sigs = []
@@ -1080,6 +1085,9 @@ def main():
         else:
             emit_global(name, t, init, const, gl, dyn)
     out = [PRELUDE]
+    if PTRCMP_OFFSET:
+        # flat address = integer value of the object's base + SIGNED offset (CBMC's own pointer->integer conversion truncates the offset field)
+        out.append('#if defined(__CPROVER__) || defined(VF_CBMC)\nstatic inline u64 LL_FLAT(ptr_t p){ s64 off = __CPROVER_POINTER_OFFSET(p); ptr_t bp = p - off; return (u64)bp + (u64)off; }\n#else\n#define LL_FLAT(p) ((u64)(p))\n#endif\n#define LL_PTRCMP(a, op, b) (LL_FLAT(a) op LL_FLAT(b))')
     done = set()
     def decl_agg(key):
         nm, t = agg_types[key]
